@@ -34,12 +34,23 @@ static size_t unhex(const char *h, unsigned char **out) {
   *out = p; return n;
 }
 static unsigned char vbyte(int seed, size_t i) { return (unsigned char)((seed * 131 + (int)i * 7) & 255); }
+/* value generator: seed >= 0: a periodic pattern; seed < 0: (n - r) bytes of a 16-byte pattern followed by r = -seed - 1 bytes without
+   repeated 4-byte sequences, so that the Snappy encoding of the block ends in a literal run whose length is controlled by r */
+static void fill_value(unsigned char *vb, size_t n, int seed) {
+  size_t i;
+  if (seed >= 0) { for (i = 0; i < n; i++) vb[i] = vbyte(seed, i); return; }
+  { size_t r = (size_t)(-seed - 1), P = r <= n ? n - r : 0; uint32_t x = 12345u + (uint32_t)r * 2654435761u;
+    for (i = 0; i < P; i++) vb[i] = (unsigned char)(((i % 16) * 13 + 1) & 255);
+    for (i = P; i < n; i++) { x = x * 1103515245u + 12345u; vb[i] = (unsigned char)((x >> 16) & 255); } }
+}
 static int find_entry(const ldb_slice_t *k) {
   int i; for (i = 0; i < NE; i++) if (E[i].kn == k->size && memcmp(E[i].k, k->data, k->size) == 0) return i + 1; return -1;
 }
 static int value_ok(int idx, const ldb_slice_t *v) {
-  size_t i; if (idx < 1) return 0; if (v->size != E[idx - 1].vn) return 0;
-  for (i = 0; i < v->size; i++) if (v->data[i] != vbyte(E[idx - 1].vseed, i)) return 0; return 1;
+  size_t i; unsigned char *want; int ok = 1; if (idx < 1) return 0; if (v->size != E[idx - 1].vn) return 0;
+  want = malloc(v->size + 1); fill_value(want, v->size, E[idx - 1].vseed);
+  for (i = 0; i < v->size; i++) if (v->data[i] != want[i]) { ok = 0; break; }
+  free(want); return ok;
 }
 static int got_idx, got_ok;
 static void on_get(void *arg, const ldb_slice_t *k, const ldb_slice_t *v) { (void)arg; got_idx = find_entry(k); got_ok = value_ok(got_idx, v); }
@@ -74,7 +85,7 @@ int main(int argc, char **argv) {
         tb = ldb_tablegen_create(&opt, wf);
         for (i = 0; i < NE; i++) {
           ldb_slice_t k, v; unsigned char *vb = malloc(E[i].vn + 1); size_t j;
-          for (j = 0; j < E[i].vn; j++) vb[j] = vbyte(E[i].vseed, j);
+          fill_value(vb, E[i].vn, E[i].vseed); (void)j;
           ldb_slice_set(&k, E[i].k, E[i].kn); ldb_slice_set(&v, vb, E[i].vn);
           ldb_tablegen_add(tb, &k, &v); free(vb);
         }
